@@ -222,7 +222,7 @@ class spec_class:
             spec_cls.__dataclass_fields__ = _SpecClassMetadataPlaceholder(
                 bootstrapper, return_attr="attrs"
             )
-            orig_new = spec_cls.__new__ if "__new__" in spec_cls.__dict__ else None
+            orig_new = spec_cls.__dict__.get("__new__")  # (the class-body entry itself, e.g. a staticmethod object)
 
             def __new__(cls, *args, **kwargs):
                 # Bootstrap spec class (looking at the __spec_class__ does this automatically)
@@ -247,7 +247,12 @@ class spec_class:
                         elif super(spec_cls, spec_cls).__new__ is object.__new__:
 
                             def __new__(cls, *args, **kwargs):
-                                return object.__new__(cls)
+                                # (cooperative: a subclass may put another
+                                # class's `__new__` behind this one)
+                                next_new = super(spec_cls, cls).__new__
+                                if next_new is object.__new__:
+                                    return object.__new__(cls)
+                                return next_new(cls, *args, **kwargs)
 
                             spec_cls.__new__ = __new__
                         else:
